@@ -34,7 +34,7 @@ def sub_s():
         "op": st.just("sub"), "c": st.sampled_from([2, 2, 2, 16, 16, 3, 7]),
         "types": st.sampled_from([["cam"], ["vam"], ["cam", "vam"], ["cam", "denm", "vam", "poi"], ["denm"]]),
         "f1": st.one_of(st.none(), st.none(), EASY, c13.stmt_s()), "logic": st.sampled_from(["and", "or"]), "f2": st.one_of(st.none(), st.none(), EASY, c13.stmt_s()),
-        "order": st.lists(st.tuples(st.sampled_from(["header.stationId", "stationId", "timestamp"]), st.sampled_from(["asc", "desc"])), max_size=2),
+        "order": st.lists(st.tuples(st.sampled_from(["header.stationId", "stationId", "timestamp", "cam.generationDeltaTime", "generationDeltaTime", "header.messageId"]), st.sampled_from(["asc", "desc"])), max_size=2),
         "notify_ms": st.sampled_from([0, 0, 1, 500, 1000, 1000, 2000, 5000]), "mult": st.sampled_from([None, 0, 1, 1, 1, 2, 4]),
         "bad": st.sampled_from([None] * 10 + ["type", "priority", "interval", "multiplicity"]),
         # the callback of this subscription unsubscribes another live subscription of the same consumer when it is invoked
